@@ -24,6 +24,10 @@ pub struct Directory<F> {
     allocator: Allocator<F>,
     dir_entries: Vec<DirEntry>,
     dir_start_sector: u32,
+    // How many times each directory entry has been freed since the file was
+    // opened (kept in memory only), so that a stream handle can tell whether
+    // its entry still describes the stream it was opened on.
+    dir_entry_generations: Vec<u32>,
 }
 
 impl<F> Directory<F> {
@@ -33,7 +37,12 @@ impl<F> Directory<F> {
         dir_start_sector: u32,
         validation: Validation,
     ) -> io::Result<Directory<F>> {
-        let directory = Directory { allocator, dir_entries, dir_start_sector };
+        let directory = Directory {
+            allocator,
+            dir_entries,
+            dir_start_sector,
+            dir_entry_generations: Vec::new(),
+        };
         directory.validate(validation)?;
         Ok(directory)
     }
@@ -87,6 +96,13 @@ impl<F> Directory<F> {
 
     pub fn dir_entry(&self, stream_id: u32) -> &DirEntry {
         &self.dir_entries[stream_id as usize]
+    }
+
+    /// Returns how many times the specified directory entry has been freed
+    /// since the file was opened.
+    pub fn dir_entry_generation(&self, stream_id: u32) -> u32 {
+        let index = stream_id as usize;
+        self.dir_entry_generations.get(index).copied().unwrap_or(0)
     }
 
     fn dir_entry_mut(&mut self, stream_id: u32) -> &mut DirEntry {
@@ -490,6 +506,11 @@ impl<F: Write + Seek> Directory<F> {
         let dir_entry = DirEntry::unallocated();
         dir_entry.write_to(&mut self.seek_to_dir_entry(stream_id)?)?;
         *self.dir_entry_mut(stream_id) = dir_entry;
+        let index = stream_id as usize;
+        if self.dir_entry_generations.len() <= index {
+            self.dir_entry_generations.resize(index + 1, 0);
+        }
+        self.dir_entry_generations[index] += 1;
         // TODO: Truncate directory chain if last directory sector is now all
         //       unallocated.
         //       In that case, also call update_num_dir_sectors()
